@@ -3,7 +3,10 @@ package c13
 
 import (
 	"bytes"
+	"encoding/json"
+	"errors"
 	"fmt"
+	"io"
 
 	"github.com/bbva/qed/balloon"
 	"github.com/bbva/qed/balloon/history"
@@ -138,4 +141,169 @@ func Twin() {
 	ir := protocol.ToIncrementalResponse(ip)
 	bp := protocol.ToIncrementalProof(ir, rt.HasherF(bits))
 	rt.Assert(!bp.Verify(l.Snaps[0], l.Snaps[1]), "twin")
+}
+
+// ---- snapshots, signed snapshots and snapshot batches in their public JSON form ----
+
+// JSON contract (engine redirect targets of json.Marshal / json.Unmarshal /
+// json.NewEncoder / (*json.Encoder).Encode; natively the real encoding/json runs):
+// encoding yields an opaque token, decoding a token yields a deep copy of the exported
+// fields of what was encoded. Whatever QED adds around the library (buffers, trimming,
+// copies) is executed as written.
+var zzJSON []interface{}
+var zzEncWriter = map[*json.Encoder]io.Writer{}
+
+func cpSnap(s *protocol.Snapshot) *protocol.Snapshot {
+	if s == nil {
+		return nil
+	}
+	return &protocol.Snapshot{EventDigest: copyBytes(s.EventDigest), HistoryDigest: copyBytes(s.HistoryDigest), HyperDigest: copyBytes(s.HyperDigest), Version: s.Version}
+}
+
+func cpSigned(s *protocol.SignedSnapshot) *protocol.SignedSnapshot {
+	if s == nil {
+		return nil
+	}
+	return &protocol.SignedSnapshot{Snapshot: cpSnap(s.Snapshot), Signature: copyBytes(s.Signature)}
+}
+
+func cpBatch(b *protocol.BatchSnapshots) *protocol.BatchSnapshots {
+	if b == nil {
+		return nil
+	}
+	c := &protocol.BatchSnapshots{}
+	if b.Snapshots != nil {
+		c.Snapshots = []*protocol.SignedSnapshot{}
+	}
+	for _, s := range b.Snapshots {
+		c.Snapshots = append(c.Snapshots, cpSigned(s))
+	}
+	return c
+}
+
+func zzMarshal(v interface{}) ([]byte, error) {
+	var box interface{}
+	switch x := v.(type) {
+	case *protocol.Snapshot:
+		box = cpSnap(x)
+	case *protocol.SignedSnapshot:
+		box = cpSigned(x)
+	case *protocol.BatchSnapshots:
+		box = cpBatch(x)
+	default:
+		return nil, errors.New("json contract: unsupported value")
+	}
+	zzJSON = append(zzJSON, box)
+	return []byte{0xb0, byte(len(zzJSON) - 1)}, nil
+}
+
+func zzUnmarshal(data []byte, v interface{}) error {
+	if len(data) != 2 || data[0] != 0xb0 || int(data[1]) >= len(zzJSON) {
+		return errors.New("json contract: undecodable")
+	}
+	switch out := v.(type) {
+	case *protocol.Snapshot:
+		x, ok := zzJSON[data[1]].(*protocol.Snapshot)
+		if !ok {
+			return errors.New("json contract: type mismatch")
+		}
+		*out = *cpSnap(x)
+	case *protocol.SignedSnapshot:
+		x, ok := zzJSON[data[1]].(*protocol.SignedSnapshot)
+		if !ok {
+			return errors.New("json contract: type mismatch")
+		}
+		*out = *cpSigned(x)
+	case *protocol.BatchSnapshots:
+		x, ok := zzJSON[data[1]].(*protocol.BatchSnapshots)
+		if !ok {
+			return errors.New("json contract: type mismatch")
+		}
+		*out = *cpBatch(x)
+	default:
+		return errors.New("json contract: unsupported target")
+	}
+	return nil
+}
+
+func zzNewEncoder(w io.Writer) *json.Encoder {
+	e := &json.Encoder{}
+	zzEncWriter[e] = w
+	return e
+}
+
+func zzEncoderEncode(e *json.Encoder, v interface{}) error {
+	b, err := zzMarshal(v)
+	if err != nil {
+		return err
+	}
+	_, err = zzEncWriter[e].Write(append(b, '\n'))
+	return err
+}
+
+func symSnap(name string) *protocol.Snapshot {
+	return &protocol.Snapshot{EventDigest: rt.Bytes(name+"-event", 32), HistoryDigest: rt.Bytes(name+"-history", 32), HyperDigest: rt.Bytes(name+"-hyper", 32), Version: rt.U64(name + "-version")}
+}
+
+func sameSnap(a, b *protocol.Snapshot, label string) {
+	rt.Assert(a != nil && b != nil, label+":snapshot-present")
+	if a == nil || b == nil {
+		return
+	}
+	rt.Assert(a.Version == b.Version, label+":version")
+	rt.Assert(bytes.Equal(a.EventDigest, b.EventDigest), label+":event-digest")
+	rt.Assert(bytes.Equal(a.HistoryDigest, b.HistoryDigest), label+":history-digest")
+	rt.Assert(bytes.Equal(a.HyperDigest, b.HyperDigest), label+":hyper-digest")
+}
+
+func sameBatch(a, b *protocol.BatchSnapshots, label string) {
+	rt.Assert(len(a.Snapshots) == len(b.Snapshots), label+":same-number-of-snapshots")
+	if len(a.Snapshots) != len(b.Snapshots) {
+		return
+	}
+	for i := range a.Snapshots {
+		sameSnap(a.Snapshots[i].Snapshot, b.Snapshots[i].Snapshot, label)
+		rt.Assert(bytes.Equal(a.Snapshots[i].Signature, b.Snapshots[i].Signature), label+":signature")
+	}
+}
+
+// SnapshotForms: Encode then Decode of a snapshot, a signed snapshot and a batch (fields
+// symbolic) gives the value back — also when the encoded bytes are used only after other
+// values have been encoded (the sender queues an encoded batch and goes on encoding).
+func SnapshotForms() {
+	zzJSON = nil
+	m := 1 + rt.Choose("batch-size", rt.Param("BATCH", 2))
+	mk := func(tag string) *protocol.BatchSnapshots {
+		b := &protocol.BatchSnapshots{}
+		for i := 0; i < m; i++ {
+			b.Snapshots = append(b.Snapshots, &protocol.SignedSnapshot{Snapshot: symSnap(fmt.Sprintf("%s%d", tag, i)), Signature: rt.Bytes(fmt.Sprintf("%s%d-sig", tag, i), 4)})
+		}
+		return b
+	}
+	a, b := mk("a"), mk("b")
+	rt.Assume(a.Snapshots[0].Snapshot.Version != b.Snapshots[0].Snapshot.Version)
+	encA, err := a.Encode()
+	rt.Assert(err == nil, "batch-encodes")
+	s1 := a.Snapshots[0]
+	encS, err := s1.Encode()
+	rt.Assert(err == nil, "signed-snapshot-encodes")
+	encP, err := s1.Snapshot.Encode()
+	rt.Assert(err == nil, "snapshot-encodes")
+	later := rt.Choose("other-values-encoded-meanwhile", 2) == 1
+	if later {
+		b.Encode()
+		b.Snapshots[0].Encode()
+		b.Snapshots[0].Snapshot.Encode()
+	}
+	var gotA protocol.BatchSnapshots
+	rt.Assert(gotA.Decode(encA) == nil, "batch-decodes")
+	sameBatch(a, &gotA, "batch")
+	var gotS protocol.SignedSnapshot
+	rt.Assert(gotS.Decode(encS) == nil, "signed-snapshot-decodes")
+	sameSnap(s1.Snapshot, gotS.Snapshot, "signed-snapshot")
+	rt.Assert(bytes.Equal(s1.Signature, gotS.Signature), "signed-snapshot:signature")
+	var gotP protocol.Snapshot
+	rt.Assert(gotP.Decode(encP) == nil, "snapshot-decodes")
+	sameSnap(s1.Snapshot, &gotP, "snapshot")
+	rt.Cover(later, "encoded-bytes-used-after-later-encodes")
 }
